@@ -276,6 +276,45 @@ def gen_points(rng, T, i, big):
     return {'name': 'points-%d' % i, 'lines': lines, 'meta': {}}
 
 
+def gen_obb_near_exact(rng, T, i, npts):
+    """oriented boxes whose rotation is an EXACT one (identity / signed axis permutation) composed with a tiny rotation (1e-13 .. 1e-4
+    rad): the matrix differs from the exact one by less than any fuzzy `isIdentity()` / `isApprox()` tolerance, yet on a long thin
+    box the far end moves by angle * length — far more than rounding. Points sit beside the side faces at the far ends, displaced by a
+    fraction of that movement (seeded change c20c: `if (rotation_.isIdentity()) return aabb_.isInside(point)`)."""
+    d = rng.choice([2, 3])
+    ang = rng.choice([1e-13, 5e-13, 1e-11, 1e-9, 1e-7, 3e-6, 8e-6, 5e-5, 1e-4]) * rng.choice([1.0, -1.0])
+    if T == 'f32':
+        ang = rng.choice([2e-7, 1e-6, 3e-6, 8e-6, 5e-5, 1e-4]) * rng.choice([1.0, -1.0])
+    L = rng.choice([1e2, 1e3, 1e4, 1e6]) if T == 'f64' else rng.choice([1e2, 1e3])
+    w = rng.choice([0.5, 1.0, 3.0])
+    long_axis = rng.below(d)
+    h = [w] * d
+    h[long_axis] = L
+    c = [0.0] * d if rng.chance(0.5) else [rnd(T, rng.uniform(-5, 5)) for _ in range(d)]
+    co, si = math.cos(ang), math.sin(ang)
+    if d == 2:
+        R = [[co, -si], [si, co]]
+        if rng.chance(0.3):      # quarter turn times the tiny rotation
+            R = [[-si, -co], [co, -si]]
+    else:
+        k = rng.below(3)
+        a_, b_ = [(1, 2), (2, 0), (0, 1)][k]
+        R = [[1.0 if r == q else 0.0 for q in range(3)] for r in range(3)]
+        R[a_][a_], R[a_][b_], R[b_][a_], R[b_][b_] = co, -si, si, co
+    R = [[rnd(T, x) for x in row] for row in R]
+    flat = [R[r][q] for r in range(d) for q in range(d)]
+    lines = ['obb.new %s %d %s %s %s' % (T, d, toks(T, c), toks(T, h), toks(T, flat)), 'obb.toaabb']
+    move = abs(ang) * L
+    for _ in range(npts):
+        y = [rng.uniform(-0.9, 0.9) * h[k] for k in range(d)]
+        y[long_axis] = rng.choice([-1.0, 1.0]) * rng.uniform(0.9, 0.999) * L          # far end
+        k = rng.choice([q for q in range(d) if q != long_axis])
+        y[k] = rng.choice([-1.0, 1.0]) * (w + rng.choice([-1.0, 1.0]) * rng.uniform(0.2, 0.8) * move)   # beside a side face
+        pt = [rnd(T, c[r] + sum(R[r][q] * y[q] for q in range(d))) for r in range(d)]
+        lines.append('obb.in ' + toks(T, pt))
+    return {'name': 'obb-near-exact-%d' % i, 'lines': lines, 'meta': {}}
+
+
 def gen_cases(rng, tier):
     quick = tier == 'quick'
     cases = []
@@ -286,6 +325,8 @@ def gen_cases(rng, tier):
         cases.append(gen_aabb(rng, T, i, npts))
         cases.append(gen_obb(rng, T, i, npts))
         cases.append(gen_interval(rng, T, i, npts))
+        if i % 4 == 0:
+            cases.append(gen_obb_near_exact(rng, T, i, 12))
     for i in range(60 if quick else 1200):
         T = rng.choice(['f64', 'f32'])
         cases.append(gen_points(rng, T, i, big=(i % 10 == 0)))
